@@ -706,6 +706,14 @@ static void end_op(struct ctx *c, const char *what)
             c->classes |= 1ull << CL_PARTIAL_DRAIN;
     }
     for (int g = 0; g < MAXGATE; g++) if (c->gate[g].live && c->gate[g].nlodged > 0) c->classes |= 1ull << CL_REQ_PENDING;
+#if PIPES_PROP == 20
+    /* what the pipes throw (everything but log messages) is part of what the application observes: a getter must not change it */
+    for (int i = c->ev_mark; i < c->pfx.nevents; i++) {
+        struct pfx_event *e = &c->pfx.events[i];
+        if (e->event == UPROBE_LOG) continue;
+        c->trace = vp_hash_mix(vp_hash_mix(c->trace, 0x3000 + e->probe * 64 + c->opno), (uint64_t)e->event);
+    }
+#endif
     c->ev_mark = c->pfx.nevents;
     c->rec_mark = c->pfx.nrecs;
 }
